@@ -63,6 +63,7 @@ func meet(a, b lat) lat {
 type Result struct {
 	Fn      *ssa.Function
 	Exec    map[*ssa.BasicBlock]bool
+	Edge    map[[2]int]bool // executable CFG edges (from.Index, to.Index)
 	Val     map[ssa.Value]lat
 	Returns []*ssa.Return
 	Steps   int
@@ -113,7 +114,7 @@ func Specialize(fn *ssa.Function, bind map[ssa.Value]constant.Value, tables map[
 			}
 		}
 	}
-	r := &Result{Fn: fn, Exec: s.execBlk, Val: s.val, Steps: s.steps}
+	r := &Result{Fn: fn, Exec: s.execBlk, Edge: s.execEdge, Val: s.val, Steps: s.steps}
 	for _, b := range fn.Blocks {
 		if !s.execBlk[b] {
 			continue
@@ -410,4 +411,13 @@ func (l lat) String() string {
 		return "?"
 	}
 	return l.v.String()
+}
+
+
+// edgeExec: the CFG edge pred->b is executable under the specialisation (nil result: every edge is).
+func (r *Result) edgeExec(pred, b *ssa.BasicBlock) bool {
+	if r == nil {
+		return true
+	}
+	return r.Edge[[2]int{pred.Index, b.Index}]
 }
